@@ -27,11 +27,11 @@ LEVEL = "exploration"
 RULE = (
     "Hypothesis-generated modules of 1-4 classes (dataclass / plain mixed, <=2 bases each, depth <=3) whose bodies draw from: "
     "annotated fields with plain / field(default|default_factory|init|kw_only|repr) values, InitVar, ClassVar (subscripted and bare), "
-    "KW_ONLY marker, un-annotated attributes, properties, methods, hand-written __init__; decorator forms @dataclass / @dataclass() / "
+    "KW_ONLY marker, un-annotated attributes, properties / cached properties with and without return annotation, methods, hand-written __init__; decorator forms @dataclass / @dataclass() / "
     "@dataclass(init=, kw_only=, other flag); 4 import forms; PEP 563 on/off; names from a pool of 5 so that overrides are common. "
     "Two cases in ten split the hierarchy over two top-level packages loaded one after the other (base package first) into one "
     "GriffeLoader, with InitVar fields in the base package. Two cases in ten spread the classes over a package (__init__, m1, m2; imports package->submodule, submodule->package, "
-    "submodule->sibling, relative or absolute; never cyclic). One case in ten is a diamond of four dataclasses (C0 <- C1, C0 <- C2, C3(C2, C1)); two in ten are a history: two variants of a same-named module loaded one after the other (separate loaders and collections) "
+    "submodule->sibling, relative or absolute, explicit or `from .src import *` with/without __all__ in the source; never cyclic). One case in ten is a diamond of four dataclasses (C0 <- C1, C0 <- C2, C3(C2, C1)); two in ten are a history: two variants of a same-named module loaded one after the other (separate loaders and collections) "
     "through ONE griffe.load_extensions() result, each judged against CPython. "
     "Only modules CPython accepts are evaluated. non-trivial = a dataclass at depth >=2 overriding an inherited field, or keyword-only "
     "interplay (flag / marker / field(kw_only)) in a dataclass with >=2 constructor fields; distinct = distinct module source"
@@ -442,6 +442,9 @@ def run_shard(ctx) -> None:
             labels = [*labels, f"package:modules-used={len(set(mods))}"]
             for i, cls in enumerate(case["dc"]["classes"]):
                 for b in cls["bases"]:
+                    if mods[b] != mods[i] and mods[b] != "__init__" and (case.get("wild", 0) >> G.PKG_MODULES.index(mods[i])) & 1:
+                        has_all = bool((case.get("all", 0) >> G.PKG_MODULES.index(mods[b])) & 1)
+                        labels.append("package:base-through-wildcard-import" + ("-with-__all__" if has_all else "-without-__all__"))
                     if mods[b] != mods[i]:
                         labels.append("package:base-in-" + ("package-init" if mods[b] == "__init__" else "submodule") + "-of-" + ("package-init" if mods[i] == "__init__" else "submodule"))
                         nt = True
